@@ -113,12 +113,31 @@ func propC09(a *Analysis, r *Registry) {
 					r.Fail(rB, ac.construct+"/same-index", a.W.InstrPos(ret), "value and weight are read at different indices")
 				}
 			}
+			b.FullScan("C-scan coverage", ac.construct+"/visits-all", a.W.InstrPos(ret), fc, idxs[0], env.MustParse("len("+ac.bases[0][1]+")"))
 			vars := b.LoopSystem(rB, ac.construct+"/recurrence", a.W.InstrPos(ret), fc, rv, env, ac.recs)
 			if vars != nil {
 				for k, v := range vars {
 					env.Set(k, v, nil)
 				}
 				b.Eq(rB, ac.construct+"/result", a.W.InstrPos(ret), rv, env, ac.result)
+			}
+		})
+	}
+	// Bounds(xs): running minimum and maximum over every element
+	if fn := b.Fn(rB, "stats.Bounds"); fn != nil {
+		b.guard(rB, "stats.Bounds", func() {
+			env := X.EnvFor(fn, "xs")
+			fc := X.Under(fn, X.AssumeCond(env.MustParse("len(xs)==0"), false))
+			r0, r1 := fc.RetVal(0), fc.RetVal(1)
+			rv := S.MakeFn("tuple", r0, r1)
+			x, i := fc.elemOf(rv, env.MustParse("xs"))
+			env.Set("x", x, nil)
+			b.FullScan("C-scan coverage", "stats.Bounds/visits-all", b.pos(fn), fc, i, env.MustParse("len(xs)"))
+			vars := b.LoopSystem(rB, "stats.Bounds/recurrence", b.pos(fn), fc, rv, env, []recSpec{
+				{"mn", "xs[0]", "ite(x<mn, x, mn)"}, {"mx", "xs[0]", "ite(mx<x, x, mx)"}})
+			if vars != nil {
+				b.EqRF(rB, "stats.Bounds/min", b.pos(fn), r0, vars["mn"], "first result is the running minimum")
+				b.EqRF(rB, "stats.Bounds/max", b.pos(fn), r1, vars["mx"], "second result is the running maximum")
 			}
 		})
 	}
